@@ -116,10 +116,13 @@ func startLeader() (*t38.Srv, error) {
 
 // startFollowerProc starts the follower child process on dir and waits for its
 // own "Ready to accept connections" line (or its exit).
-func startFollowerProc(dir string) (*t38.Proc, error) {
+func startFollowerProc(dir string) (*t38.Proc, error) { return startFollowerProcDev(dir, false) }
+
+// startFollowerProcDev optionally starts the child in dev mode (SLEEP command).
+func startFollowerProcDev(dir string, dev bool) (*t38.Proc, error) {
 	var last error
 	for try := 0; try < 6; try++ {
-		F, err := t38.StartProc(t38.Opts{Dir: dir})
+		F, err := t38.StartProc(t38.Opts{Dir: dir, DevMode: dev})
 		if err != nil {
 			last = err
 			if strings.Contains(err.Error(), "address already in use") {
